@@ -43,6 +43,22 @@ def cacheRowFn (band lm1 : Nat) : Option (Nat → Nat) :=
   | some ci => if ci < 0 then none else some (fun j => Gen.CeltTables.cacheBits.getD (ci.toNat + j) 0)
   | none => none
 
+def rcOpStr : Opus.RangeCoder.Op → String
+  | .bitLogp v logp => s!"b{v}/{logp}"
+  | .uint v ft => s!"u{v}/{ft}"
+  | .bits v n => s!"r{v}/{n}"
+  | .icdf sym tbl ftb => s!"i{sym}/{ftb}/{".".intercalate (tbl.map toString)}"
+  | .encodeBin fl fh b => s!"e{fl}/{fh}/{b}"
+  | .shrink n => s!"s{n}"
+  | _ => "?"
+
+def ctxOf (cx : List Int) : Opus.RangeCoder.Ctx :=
+  let g (i : Nat) : Nat := (cx.getD i 0).toNat
+  { buf := List.replicate (g 0) 0, storage := g 0, endOffs := g 1, endWindow := g 2, nendBits := g 3, nbitsTotal := g 4,
+    offs := g 5, rng := g 6, val := g 7, ext := g 8, rem := cx.getD 9 0, error := cx.getD 10 0 }
+
+def opsStr (ops : List Opus.RangeCoder.Op) : String := if ops.isEmpty then "-" else ",".intercalate (ops.map rcOpStr)
+
 def handle : List String → String
   | ["V", n, k] =>
     match parseNat n, parseNat k with
@@ -115,6 +131,16 @@ def handle : List String → String
         s!"ops={ops} fin={h.enc.rng},{h.enc.val},{h.enc.nbitsTotal},{h.enc.offs},{h.enc.storage}")
         (Opus.CeltSymsEnc.encHeader cfg { e := e1, ds := ds })
     | _, _, _, _, _, _, _, _, _ => "bad-op"
+  | ["coarse", st, en, c, lm, lfe, size, ctx, ds] =>
+    -- quant_coarse_energy alone: the intra flag and the qi of the chosen pass, from pre-clamp decisions
+    match parseNat st, parseNat en, parseNat c, parseNat lm, parseNat lfe, parseNat size, parseIntList ctx, parseIntList ds with
+    | some st, some en, some c, some lm, some lfe, some size, some cx, some ds =>
+      if cx.length ≠ 11 then "bad-op" else
+      let cfg : Opus.CeltSymsEnc.EncCfg := { start := st, end_ := en, C := c, LM := lm, vbr := false, lfe := lfe ≠ 0, size := size }
+      resStr (fun (r : Nat × List Int × List Int × Opus.CeltSymsEnc.St) =>
+        s!"ops={opsStr r.2.2.2.ops} fin={r.2.2.2.e.rng},{r.2.2.2.e.val},{r.2.2.2.e.nbitsTotal},{r.2.2.2.e.offs},{r.2.2.2.e.storage} q={intList r.2.1}")
+        (Opus.CeltSymsEnc.encCoarse cfg ((size * 8 : Nat) : Int) { e := ctxOf cx, ds := ds })
+    | _, _, _, _, _, _, _, _ => "bad-op"
   | _ => "bad-op"
 
 end Driver.SuiteCwrs
